@@ -16,7 +16,7 @@ COMMON_NOTE = ("Trusted base: the Go toolchain, the hand-written explorer in /ve
                "(deterministic auditing buffer pool, dirty-memory allocator) standing in for the real pool; bounds are stated in the evidence file. ")
 
 add("C20", "exploration",
-    "Exhaustive enumeration of every sub-slice b[i:j:k] / substring s[i:j] over backing stores of length 0..9 (plus nil/empty) for both build variants of package unsafex; each case checks length, content, data-pointer identity, cap==len and that append never alters the enclosing string. The functions are pure and shape-only, so the small scope covers every combination of offset, length and spare capacity.",
+    "Exhaustive enumeration of every sub-slice b[i:j:k] / substring s[i:j] over backing stores of length 0..9 (plus nil/empty) for both build variants of package unsafex and, as a third variant, for a 32-bit build (cmd/c20arch, GOARCH=386, executed when the kernel runs 32-bit binaries); each case checks length, content, data-pointer identity, cap==len and that append never alters the enclosing string. The functions are pure and shape-only, so the small scope covers every combination of offset, length and spare capacity.",
     COMMON_NOTE + "The pre-go1.21 file is compiled with the installed toolchain through the overlay.",
     "bounded-exhaustive enumeration of the input space (small-scope) against a direct oracle", "E1/E6", "5/C20")
 
@@ -38,14 +38,14 @@ add("C09", "model_checking",
 EX_NOTE = COMMON_NOTE + "The reference is an independent recursive-descent parser of the Thrift Binary grammar (ref/wire.go) written from the format, not from the code. "
 
 add("C02", "exploration",
-    "Bounded-exhaustive enumeration: every typed value tree of the generator (all 121 map key/value type pairs, all 11 list/set element types, sizes 0..3/many, 121 ordered struct field pairs, wide values, nesting chains to depth 63, strings to 9000 bytes) x trailers x all 9 skipper/reader combinations (incl. a caller-implemented skip interface and Binary.Skip on an input held in a local array on a goroutine stack that moves while it grows) x every fragmentation policy of the stream (incl. sources with Len, runs of empty reads), values whose size needs the top byte of the 32-bit length, plus every per-Read deviation (<= bound) on small values and all decoder histories of <= 3 Next calls with pool reuse, a value > 1 MiB, Release between calls and SkipN before Next; oracle = encoded length / bytes / ReadLen / next byte / bytes pulled from the io.Reader / no Read issued once the value has been delivered.",
+    "Bounded-exhaustive enumeration: every typed value tree of the generator (all 121 map key/value type pairs, all 11 list/set element types, sizes 0..3/many, 121 ordered struct field pairs, wide values, nesting chains to depth 63, strings to 9000 bytes) x trailers x all 11 skipper/reader combinations (incl. a caller-implemented skip interface and Binary.Skip on an input held in a local array on a goroutine stack that moves while it grows) x every fragmentation policy of the stream (incl. sources with Len, runs of empty reads), values whose size needs the top byte of the 32-bit length, plus every per-Read deviation (<= bound) on small values and all decoder histories of <= 3 Next calls with pool reuse, a value > 1 MiB, Release between calls and SkipN before Next; oracle = encoded length / bytes / ReadLen / next byte / bytes pulled from the io.Reader / no Read issued once the value has been delivered.",
     EX_NOTE, "bounded-exhaustive enumeration of typed value trees x environment answers (deviation-bounded) against a reference encoder", "E1+E6", "5/C02")
 add("C03", "exploration",
-    "Bounded-exhaustive enumeration of inputs on all 22 buffer-based entry points (string-copying ones under both settings of the span-cache allocator): all grammar-alphabet strings up to length L and all full-alphabet strings up to length 2/3 (Binary.Skip with all 256 type bytes), every truncation, every single (thorough: pair of) structural perturbation and all pairwise splices of valid encodings; each call runs in three placements (against a PROT_NONE guard page, with spare capacity 0x00 and 0xff) under a recover boundary: no panic, no fault, identical results, reported length <= len(input).",
+    "Bounded-exhaustive enumeration of inputs on all 22 buffer-based entry points (string-copying ones under both settings of the span-cache allocator): all grammar-alphabet strings up to length L and all full-alphabet strings up to length 2/3 (Binary.Skip with all 256 type bytes), every truncation, every single (thorough: pair of) structural perturbation and all pairwise splices of valid encodings; each call runs in three placements (against a PROT_NONE guard page, with spare capacity 0x00 and 0xff) under a recover boundary: no panic, no fault, identical results, reported length <= len(input). Call histories on one skip decoder: every sequence of <= 3 calls over 12 exported operations (Next x 6 requested types, SkipN x 4 counts, Reset, Grow) x 4 decoder/reader combinations x every truncation of 5 encodings.",
     EX_NOTE + "Allocating entry points are driven with declared sizes <= 65536 only (the cap the statement allows).",
     "bounded-exhaustive input enumeration with guard-page placement and panic/fault boundary", "E6+E7", "5/C03")
 add("C08", "exploration",
-    "Bounded-exhaustive enumeration on all five skipping facilities (9 skipper/reader combinations, incl. stack-held input): all grammar-alphabet strings up to length L x 18 requested types, every strict prefix and structural perturbation of generated trees, nesting chains 1..70 (plus mixed-kind and very deep chains) — accept/reject and extent compared with the independent grammar parser; rejection required from nesting 65, level 64 not compared.",
+    "Bounded-exhaustive enumeration on all five skipping facilities (11 skipper/reader combinations, incl. stack-held input): all grammar-alphabet strings up to length L x 18 requested types, every strict prefix and structural perturbation of generated trees, nesting chains 1..70 (plus mixed-kind and very deep chains) — accept/reject and extent compared with the independent grammar parser; rejection required from nesting 65, level 64 not compared.",
     EX_NOTE + "A stream skipper asking for > 2 MiB on a < 64 KiB input counts as a rejection (counted separately).",
     "bounded-exhaustive input enumeration against an independent recursive-descent grammar", "E6", "5/C08")
 
@@ -90,12 +90,12 @@ add("C15", "exploration",
     "The whole interval of value lengths 0..3x4096+1 is swept for WriteStringNocopy/WriteBinaryNocopy with a nil and a recording direct writer and buffers with exact and spare capacity; all sequences of <= 3 calls over boundary lengths; Base with every combination of small/threshold-1/threshold/threshold+1 for its three strings, a map key and a map value (4^5 + nil/empty map), BaseResp, ApplicationException. structs with 2..70 map entries of large values (streams compared as decoded structs, maps as sets) and writes that follow a failed (panicked, recovered) write. Oracle: an independent splice of the linear bytes with the recorded (slice, remainCap) pairs must equal the copying path; direct writes only with a writer attached, positions in stream order, every piece covered by its remaining capacity, the linear bytes before a position final when it is announced, returned n + direct bytes == advertised length; which values go direct (the threshold) and whether pieces alias the caller's memory are the library's choice and are not asserted; a second, end-relative splice convention is cross-checked.",
     COMMON_NOTE, "full interval sweep + bounded-exhaustive combinations against an independent splice oracle", "E6", "5/C15")
 add("C16", "exploration",
-    "For every value-length class across the span allocator's size classes a run of consecutive decodes long enough to wrap the 1 MiB span (thorough: twice), all results retained, plus all ordered pairs of classes alternating, on 8 entry points and both span-cache settings; afterwards the input is overwritten, reader buffers are released and scribbled by a pool co-tenant, and every retained value must be unchanged; the capacity ranges of all returned values are checked pairwise disjoint and disjoint from the input by a sorted address sweep, and appending to / overwriting returned slices must leave siblings and input intact.",
+    "For every value-length class across the span allocator's size classes a run of consecutive decodes long enough to wrap the 1 MiB span (thorough: twice), all results retained, plus all ordered pairs of classes alternating, on 10 entry points (Base and ApplicationException FastRead also into values that already hold the arriving message) and both span-cache settings; afterwards the input is overwritten, reader buffers are released and scribbled by a pool co-tenant, and every retained value must be unchanged; the capacity ranges of all returned values are checked pairwise disjoint and disjoint from the input by a sorted address sweep, and appending to / overwriting returned slices must leave siblings and input intact.",
     COMMON_NOTE + "Strings may share memory with other strings (the Go runtime interns 1-byte strings); only mutable ranges are required to be disjoint.",
     "bounded-exhaustive enumeration of decode histories per allocator size class with aliasing oracle (address sweep + mutation)", "E6+E4", "5/C16")
 
 add("C14", "model_checking",
-    "Stateless model checking of the real code under a cooperative scheduler: thread bodies run create/use/release cycles (twice, so pooled objects and buffers are re-acquired) of every pooled type with payloads stamped by thread id; scheduling points sit before every sync.Pool Get/Put, every buffer-pool Malloc/Free, the span allocator's try-lock and every source/sink IO; ALL schedules with <= 2 (thorough 3) preemptions are enumerated for 30 two- and three-thread scenarios (readers, writers, the three skip decoders, TTHeader codec incl. encodes from shared parameter maps, span allocator, Base encode re-entered at the direct-write callback, error paths), with 'the pool lost its items at this Get' as an extra deviation. Oracle per execution: every result equals the value the body knows must come back, each thread's observation log equals its solo log, buffer-pool ownership audit, pooled objects are neither used (trap) nor written (snapshot) after Put. Shared maps: every exported query is shown to leave all private fields bit-identical (when the type holds no synchronisation primitive), so reads commute and the sequential exploration covers all interleavings of queries. Complement (sampling, declared): a free-running -race pass of equivalent bodies on the un-shimmed build plus concurrent Get/Len/Item/String on shared maps.",
+    "Stateless model checking of the real code under a cooperative scheduler: thread bodies run create/use/release cycles (twice, so pooled objects and buffers are re-acquired) of every pooled type with payloads stamped by thread id; scheduling points sit before every sync.Pool Get/Put, every buffer-pool Malloc/Free, the span allocator's try-lock and every source/sink IO; ALL schedules with <= 2 (thorough 3) preemptions are enumerated for 30 two- and three-thread scenarios (readers, writers, the three skip decoders, TTHeader codec incl. encodes from shared parameter maps, span allocator, Base encode re-entered at the direct-write callback, error paths), with 'the pool lost its items at this Get' as an extra deviation. Oracle per execution: every result equals the value the body knows must come back, each thread's observation log equals its solo log, buffer-pool ownership audit, pooled objects are neither used (trap) nor written (snapshot) after Put. Shared maps: every exported query is shown to leave all private fields bit-identical (when the type holds no synchronisation primitive), so reads commute and the sequential exploration covers all interleavings of queries. Complement (sampling, declared): a free-running -race pass of equivalent bodies and of the helper functions (exception rendering and matching, unknown-field get/length/write, apache bridge) on the un-shimmed build plus concurrent Get/Len/Item/String on shared maps, preceded by 8 (thorough 40) fresh processes in which 16 goroutines released together make their FIRST calls into the library in rotated orders (lazily built package-level state is written by the first call only).",
     COMMON_NOTE + "Scheduling points are at synchronisation operations only; unsynchronised accesses between them are left to the -race complement, which is sampling and only ever adds data-race/self-check reports. Memory model: sequential consistency.",
     "stateless model checking under a controlled scheduler with iterative preemption bounding (hand-written explorer), plus a declared free-running race-detector complement", "E3+E4", "5/C14")
 
